@@ -22,6 +22,7 @@ import (
 	"os"
 	"sort"
 	"strings"
+	"sync"
 
 	"perkeep.org/pkg/blob"
 	"perkeep.org/pkg/blobserver"
@@ -72,6 +73,7 @@ type fileSpec struct {
 
 type recorder struct {
 	blobserver.Storage
+	mu    sync.Mutex // the file writer uploads chunks from several goroutines
 	order []blob.Ref
 	data  map[blob.Ref][]byte
 }
@@ -81,6 +83,8 @@ func (r *recorder) ReceiveBlob(ctx context.Context, br blob.Ref, src io.Reader) 
 	if err != nil {
 		return blob.SizedRef{}, err
 	}
+	r.mu.Lock()
+	defer r.mu.Unlock()
 	if _, dup := r.data[br]; !dup {
 		r.order = append(r.order, br)
 		r.data[br] = b
@@ -90,7 +94,10 @@ func (r *recorder) ReceiveBlob(ctx context.Context, br blob.Ref, src io.Reader) 
 
 func (r *recorder) StatBlobs(ctx context.Context, blobs []blob.Ref, fn func(blob.SizedRef) error) error {
 	for _, br := range blobs {
-		if b, ok := r.data[br]; ok {
+		r.mu.Lock()
+		b, ok := r.data[br]
+		r.mu.Unlock()
+		if ok {
 			if err := fn(blob.SizedRef{Ref: br, Size: uint32(len(b))}); err != nil {
 				return err
 			}
@@ -100,7 +107,9 @@ func (r *recorder) StatBlobs(ctx context.Context, blobs []blob.Ref, fn func(blob
 }
 
 func (r *recorder) Fetch(ctx context.Context, br blob.Ref) (io.ReadCloser, uint32, error) {
+	r.mu.Lock()
 	b, ok := r.data[br]
+	r.mu.Unlock()
 	if !ok {
 		return nil, 0, os.ErrNotExist
 	}
@@ -381,6 +390,8 @@ func runScenario(sc *scenario, rng *rand.Rand, scratch string) error {
 		fileRefs = append(fileRefs, fr)
 		contents = append(contents, f.Content)
 	}
+	// the writer's upload order depends on goroutine scheduling: use the order of the refs
+	sort.Slice(rec.order, func(i, j int) bool { return rec.order[i].String() < rec.order[j].String() })
 	var specs []univ.Spec
 	for _, br := range rec.order {
 		specs = append(specs, univ.Spec{Hash: br.HashName(), Data: rec.data[br], Kind: "chunk"})
@@ -391,6 +402,7 @@ func runScenario(sc *scenario, rng *rand.Rand, scratch string) error {
 		files[u.RankOf(fr)] = contents[i]
 	}
 	// which blobs does each file need? re-run the writer per file into a private recorder
+	var perFile [][]blob.Ref
 	for i, f := range sc.Files {
 		r1 := &recorder{data: map[blob.Ref][]byte{}}
 		if _, err := schema.WriteFileFromReader(context.Background(), r1, f.Name, bytes.NewReader(f.Content)); err != nil {
@@ -400,6 +412,7 @@ func runScenario(sc *scenario, rng *rand.Rand, scratch string) error {
 		for _, br := range r1.order {
 			need = append(need, u.RankOf(br))
 		}
+		perFile = append(perFile, append([]blob.Ref(nil), r1.order...))
 		sort.Ints(need)
 		na := make([]any, len(need))
 		for j, v := range need {
@@ -409,7 +422,21 @@ func runScenario(sc *scenario, rng *rand.Rand, scratch string) error {
 	}
 	isFile := func(br blob.Ref) bool { _, ok := files[u.RankOf(br)]; return ok }
 	// delivery order: chunks (optionally shuffled), each file's schema blob after its chunks
-	order := append([]blob.Ref(nil), rec.order...)
+	var order []blob.Ref
+	placed := map[blob.Ref]bool{}
+	for i, blobs := range perFile {
+		sort.Slice(blobs, func(a, b int) bool { return blobs[a].String() < blobs[b].String() })
+		for _, br := range blobs {
+			if br != fileRefs[i] && !placed[br] {
+				placed[br] = true
+				order = append(order, br)
+			}
+		}
+		if !placed[fileRefs[i]] {
+			placed[fileRefs[i]] = true
+			order = append(order, fileRefs[i])
+		}
+	}
 	if sc.Shuffle {
 		var chunks, fs []blob.Ref
 		for _, br := range order {
